@@ -16,6 +16,11 @@ let install register get getn geti getb =
     let (u, g) = fileStat_owner hs hi sid iid and (lu, lg) = ls_owner hs hi sid iid in
     Printf.sprintf "flags=%s uid=%s gid=%s lsuid=%s lsgid=%s" (hex_of_n (fileStat_flags hs hi (nat_of_int (geti kv "next")) he))
       (hex_of_n u) (hex_of_n g) (hex_of_n lu) (hex_of_n lg));
+  (* kind listowner (c16): the owner a listed entry carries, from the same fileStat_owner *)
+  register "listowner" (fun kv ->
+    let hs = getb kv "statt" and hi = getb kv "iface" in
+    let (u, g) = fileStat_owner hs hi (getn kv "suid", getn kv "sgid") (getn kv "iuid", getn kv "igid") in
+    Printf.sprintf "uid=%s gid=%s" (hex_of_n u) (hex_of_n g));
   register "setstat" (fun kv ->
     let flags = getn kv "flags" in
     let fs = { st_size = getn kv "size"; st_mode = getn kv "mode"; st_mtime = getn kv "mtime"; st_atime = getn kv "atime";
